@@ -542,8 +542,9 @@ def mon_reparse(seq, ctx):
                         # relayed copy: last parameter (text / reason / topic) must be what was sent
                         if k in ("PRIVMSG", "NOTICE") and len(sent[2]) >= 2 and m[2][-1] != sent[2][1]:
                             return [fail("reparse", "relay-text-differs:%s" % k, op, sent=sent[2][1], got=m[2][-1])]
-                        if k in ("TOPIC",) and len(sent[2]) >= 2 and m[2][-1] != sent[2][1]:
-                            return [fail("reparse", "relay-text-differs:%s" % k, op, sent=sent[2][1], got=m[2][-1])]
+                        # TOPIC is relayed with ALL the parameters the sender gave; the topic is the second
+                        if k in ("TOPIC",) and len(sent[2]) >= 2 and (len(m[2]) < 2 or m[2][1] != sent[2][1]):
+                            return [fail("reparse", "relay-text-differs:%s" % k, op, sent=sent[2][1], got=m[2][1:2])]
                         if k == "PART" and len(sent[2]) >= 2 and m[2][-1] != sent[2][1]:
                             return [fail("reparse", "relay-text-differs:%s" % k, op, sent=sent[2][1], got=m[2][-1])]
                         if k == "KICK" and len(sent[2]) >= 3 and m[2][-1] != sent[2][2]:
